@@ -445,16 +445,30 @@ class NetworkGraph(AbstractBaseIR):
             d_steps = self._preprocess_delay(delay, discretize=True)
             buf = f'{var}_buffer{buffer_id}'
             buf_out = f'{var}_buffered{buffer_id}'
-            var_dict[buf] = {'vtype': 'variable', 'dtype': 'float',
-                             'shape': (Ns, d_steps + 1), 'value': 0.}
-            var_dict[buf_out] = {'vtype': 'variable', 'dtype': 'float',
-                                 'shape': (Ns,), 'value': 0.}
-            # Inline d_steps as a literal so index_axis returns shape (Ns,) not (Ns, 1)
-            buffer_eqs = [
-                f"index_axis({buf}) = roll({buf}, 1, 1)",
-                f"index_axis({buf}, 0, 1) = {var}",
-                f"{buf_out} = index_axis({buf}, {d_steps}, 1)",
-            ]
+            if Ns == 1:
+                # A population with a single unit is a scalar at runtime: keep a 1-D
+                # buffer of shape (d_steps+1,) so that the delayed value is a scalar, too
+                # (mirrors the scalar branch of `_add_edge_buffer`).
+                var_dict[buf] = {'vtype': 'variable', 'dtype': 'float',
+                                 'shape': (d_steps + 1,), 'value': 0.}
+                var_dict[buf_out] = {'vtype': 'variable', 'dtype': 'float',
+                                     'shape': (), 'value': 0.}
+                buffer_eqs = [
+                    f"index_axis({buf}) = roll({buf}, 1)",
+                    f"index({buf}, 0) = {var}",
+                    f"{buf_out} = index({buf}, {d_steps})",
+                ]
+            else:
+                var_dict[buf] = {'vtype': 'variable', 'dtype': 'float',
+                                 'shape': (Ns, d_steps + 1), 'value': 0.}
+                var_dict[buf_out] = {'vtype': 'variable', 'dtype': 'float',
+                                     'shape': (Ns,), 'value': 0.}
+                # Inline d_steps as a literal so index_axis returns shape (Ns,) not (Ns, 1)
+                buffer_eqs = [
+                    f"index_axis({buf}) = roll({buf}, 1, 1)",
+                    f"index_axis({buf}, 0, 1) = {var}",
+                    f"{buf_out} = index_axis({buf}, {d_steps}, 1)",
+                ]
         else:
             # --- ODE cascade (gamma kernel or adaptive step size) ---
             if spread is not None and spread > 0:
